@@ -393,8 +393,8 @@ class Reader:
                 alignment = self.parse_integer()
                 ins = ir.Alloc(name, size, alignment)
             elif a == "load":
-                address = self.parse_value_ref()
-                ins = ir.Load(address, name, ty)
+                volatile, address = self.parse_volatile_value_ref()
+                ins = ir.Load(address, name, ty, volatile=volatile)
             elif a == "cast":
                 value = self.parse_value_ref()
                 ins = ir.Cast(value, name, ty)
@@ -447,6 +447,19 @@ class Reader:
         """Parse a reference to another variable."""
         return self.find_value(self.parse_id(), ty=ty)
 
+    def parse_volatile_value_ref(self):
+        """Parse ['volatile'] value-reference.
+
+        A value may itself be called volatile: the word is the marker only
+        when another identifier follows.
+        """
+        volatile = False
+        name = self.parse_id()
+        if name == "volatile" and self.peek == "ID":
+            volatile = True
+            name = self.parse_id()
+        return volatile, self.find_value(name, ty=ir.ptr)
+
     def parse_block_ref(self):
         return self._get_block(self.parse_id())
 
@@ -460,10 +473,10 @@ class Reader:
             ins = self.parse_return()
         elif self.at_keyword("store"):
             self.consume_keyword("store")
-            value = self.parse_value_ref()
+            volatile, value = self.parse_volatile_value_ref()
             self.consume(",")
             address = self.parse_value_ref()
-            ins = ir.Store(value, address)
+            ins = ir.Store(value, address, volatile=volatile)
         elif self.at_keyword("exit"):
             self.consume_keyword("exit")
             ins = ir.Exit()
